@@ -17,6 +17,20 @@ def main():
         job = json.load(f)
     rec = Rec(job)
     t0 = time.time()
+    cov = None
+    import os as _os
+
+    if _os.environ.get("VERIF_COVER_DIR"):
+        # development aid (tools/reach): which lines of the tree under test the workload executes; never part of a verdict
+        try:
+            import coverage
+            from vmon.boot import repo_path as _rp
+
+            cov = coverage.Coverage(data_file=_os.path.join(_os.environ["VERIF_COVER_DIR"], "cov"), data_suffix=True,
+                                    include=[_os.path.join(_rp(), "inference", "*")])
+            cov.start()
+        except Exception:  # noqa: BLE001
+            cov = None
     try:
         mod = importlib.import_module(f"vmon.props.{prop.lower()}")
         mod.run_job(job, rec)
@@ -41,6 +55,9 @@ def main():
             )
         else:
             rec.inconclusive_because("harness exception: " + text)
+    if cov is not None:
+        cov.stop()
+        cov.save()
     out = rec.to_dict()
     out["wall_s"] = time.time() - t0
     dump(out_path, out)
